@@ -218,17 +218,30 @@ class DTCWTInverse(nn.Module):
         """
         low, highs = coeffs
         J = len(highs)
+
+        # None, an empty tensor (torch.tensor([])) and the 0-d placeholders the
+        # forward transform returns for skipped levels all mean 'zeros here'
+        def _absent(t):
+            return t is None or t.numel() == 0 or t.shape == torch.Size([])
+        if _absent(low):
+            low = None
+        highs = [None if _absent(s) else s for s in highs]
+        if low is None and all(s is None for s in highs):
+            raise ValueError("Need at least one of the lowpass or bandpass "
+                             "coefficients to reconstruct from")
+
         mode = mode_to_int(self.mode)
         _, _, h_dim, w_dim = get_dimensions6(
             self.o_dim, self.ri_dim)
         for j, s in zip(range(J-1, 0, -1), highs[1:][::-1]):
-            if s is not None and s.shape != torch.Size([]):
+            if s is not None:
                 assert s.shape[self.o_dim] == 6, "Inverse transform must " \
                     "have input with 6 orientations"
                 assert len(s.shape) == 6, "Bandpass inputs must have " \
                     "6 dimensions"
                 assert s.shape[self.ri_dim] == 2, "Inputs must be complex " \
                     "with real and imaginary parts in the ri dimension"
+            if s is not None and low is not None:
                 # Ensure the low and highpass are the right size
                 r, c = low.shape[2:]
                 r1, c1 = s.shape[h_dim], s.shape[w_dim]
@@ -237,11 +250,14 @@ class DTCWTInverse(nn.Module):
                 if c != c1 * 2:
                     low = low[:,:,:,1:-1]
 
+            if low is None and s is None:
+                # Nothing at this scale or coarser ones
+                continue
             low = INV_J2PLUS.apply(low, s, self.g0a, self.g1a, self.g0b,
                                    self.g1b, self.o_dim, self.ri_dim, mode)
 
         # Ensure the low and highpass are the right size
-        if highs[0] is not None and highs[0].shape != torch.Size([]):
+        if highs[0] is not None and low is not None:
             r, c = low.shape[2:]
             r1, c1 = highs[0].shape[h_dim], highs[0].shape[w_dim]
             if r != r1 * 2:
